@@ -473,6 +473,52 @@ theorem limits_after_promote (s : Pool) (slots qorder : List Addr) (h : GA s) :
       · have : a ∉ m2.accts := by rw [e1.accts]; exact hacc
         rw [(e1.ga.1.2 a this).1]; exact Nat.zero_le _
 
+/-- promoteExecutables over a given account list (what a successful, non-replacing add runs): the queue cap for those
+    accounts and both pool-wide limits hold afterwards, for every eviction oracle -/
+theorem limits_after_promote_some (s : Pool) (as : List Addr) (slots qorder : List Addr) (h : GA s) :
+    let s' := s.promoteExecutables (some as) slots qorder
+    (∀ a ∈ as, a ∉ s'.locals → (s'.queue a).items.length ≤ s'.cfg.accountQueue) ∧
+    sumLen s'.queue (s'.accts.filter (fun a => !s'.isLocal a)) ≤ s'.cfg.globalQueue ∧
+    (s'.pendingCount ≤ s'.cfg.globalSlots ∨ ∀ a, a ∉ s'.locals → (s'.pending a).items.length ≤ s'.cfg.accountSlots) ∧
+    GA s' := by
+  unfold Pool.promoteExecutables
+  simp only
+  obtain ⟨p1, p2⟩ := promoteLoop_spec as s h
+  generalize as.foldl (fun s a => s.promoteAcct a) s = m1 at p1 p2 ⊢
+  obtain ⟨e1, e2⟩ := slotEvict_spec m1 slots p1.ga
+  generalize m1.slotEvict slots = m2 at e1 e2 ⊢
+  obtain ⟨q1, q2⟩ := queueEvict_spec m2 qorder e1.ga
+  generalize m2.queueEvict qorder = m3 at q1 q2 ⊢
+  have hloc : m3.locals = s.locals := q1.locals.trans (e1.locals.trans p1.locals)
+  have hcfg : m3.cfg = s.cfg := q1.cfg.trans (e1.cfg.trans p1.cfg)
+  refine ⟨?_, q2, ?_, q1.ga⟩
+  · intro a haas ha
+    rw [hloc] at ha
+    rw [hcfg]
+    apply Nat.le_trans (q1.qle a)
+    rw [e1.queue]
+    exact p2 a ha (Or.inl haas)
+  · have hpc : m3.pendingCount = m2.pendingCount := by
+      unfold Pool.pendingCount; rw [q1.pending, q1.accts]
+    rw [hpc, hcfg, ← p1.cfg, ← e1.cfg]
+    rcases e2 with hl | hr
+    · left; rw [e1.cfg]; exact hl
+    · right
+      intro a ha
+      rw [q1.pending]
+      by_cases hacc : a ∈ m1.accts
+      · have := hr a hacc
+        unfold Pool.offender at this
+        have hnl : m2.isLocal a = false := by
+          unfold Pool.isLocal
+          rw [e1.locals, p1.locals, ← hloc]
+          simpa using ha
+        simp only [hnl, Bool.not_false, Bool.true_and, decide_eq_false_iff_not, Nat.not_lt] at this
+        rw [e1.cfg] at this
+        rw [e1.cfg]; exact this
+      · have : a ∉ m2.accts := by rw [e1.accts]; exact hacc
+        rw [(e1.ga.1.2 a this).1]; exact Nat.zero_le _
+
 /-! ### reset ends with the pool-wide enforcement -/
 
 /-- the state a reset hands to its final promoteExecutables(nil) -/
